@@ -102,10 +102,12 @@ fn verif_cubic_congestion_event_step() {
         // at most one reduction per round trip (recovery period)
         assert!(cc.congestion_window == pre.cwnd);
     } else {
-        // RFC 8312 4.5: multiplicative decrease by beta = 0.7, floored at the minimum window
+        // a new congestion event starts a recovery period and reduces the window (RFC 9002 7.3.2),
+        // floored at the minimum window; the reduction factor is the implementation's choice
+        // (today beta = 0.7, RFC 8312 4.5) - a full collapse is reserved for persistent congestion
         assert!(matches!(cc.state, Recovery(_, RequiresTransmission)));
-        let expect = (pre.cwnd * 0.7).max(pre.min);
-        assert!(cc.congestion_window == expect);
+        assert!(cc.congestion_window < pre.cwnd || cc.congestion_window == pre.min);
+        assert!(cc.congestion_window >= pre.cwnd * 0.5 || cc.congestion_window == pre.min);
     }
     kani::cover!(!persistent && !was_recovery && cc.congestion_window > pre.min, "window reduced by beta");
     kani::cover!(!persistent && !was_recovery && cc.congestion_window == pre.min, "reduction floored at minimum");
